@@ -1,9 +1,11 @@
 """C16 -- the LCD filter simplifies style and layout but keeps the text timeline.   Level: other (small proof tier + bounded).
 
-Proof tier (pyvc, for ALL integers 0 <= sa <= 30): the real LCDDocFilter.process is executed symbolically on concrete documents
-(real ttconv.model objects, see SHAPES) with a symbolic `safe_area`; on every path every remaining region must end with
-origin (sa, sa) %, extent (100 - 2 sa, 100 - 2 sa) %, without tts:position and without animation steps, and the filter must not
-raise.  The shapes are a finite, stated list -- arbitrary documents are the bounded tier.
+Proof tier (pyvc): the real LCDDocFilter.process is executed symbolically on concrete documents (real ttconv.model objects,
+specs/lcd_shapes.py) with a symbolic `safe_area`; for ALL integers 0 <= sa <= 30, on every path, the filter must not raise and
+every remaining region must end with origin (sa, sa) %, extent (100 - 2 sa, 100 - 2 sa) %, without tts:position and without
+animation steps.  For one region given in percent the top edge y and the height h are symbolic rationals as well: for ALL
+0 <= y, 0 <= h, y + h <= 100 and each display alignment the resulting alignment obeys A-LCD-ALIGN.  The shapes are a finite,
+stated list -- arbitrary documents are the bounded tier.
 Bounded tier: rtc/c16.py (generated and directed documents x configurations) against specs/lcd.py and specs/isd.py.
 """
 from __future__ import annotations
@@ -23,6 +25,7 @@ try:
 finally:
   del builtins.__file__
 import ttconv.style_properties as sp       # noqa: E402
+from specs.lcd_shapes import SHAPES, CONFIG   # noqa: E402
 
 PROP = "C16"
 SP = sp.StyleProperties
@@ -35,7 +38,8 @@ ASSUMPTIONS = [
   "A-LCD-ALIGN: the statement does not define the 'resulting' display alignment.  Reading used (supported by test_lcd_filter.py): for "
   "horizontal writing modes the anchor edge of the region (top edge for displayAlign before, bottom edge for after, middle or bottom "
   "edge for center) in the upper half of the root container gives `before`, in the lower half `after`; an anchor at 50 % (+-1e-6), "
-  "vertical writing modes, positions measured from the bottom/right edge give either.  Lengths are resolved as TTML2 prescribes "
+  "vertical writing modes, positions measured from the bottom/right edge give either -- except that a `before` region whose top edge "
+  "is exactly at 50 % lies wholly in the lower half and must give `after`.  Lengths are resolved as TTML2 prescribes "
   "(% and rh/rw of the root container, c by ttp:cellResolution, px by the document's pixel resolution; tts:position overrides "
   "tts:origin, a percentage offset being relative to root extent minus region extent; initial values replace TTML defaults)",
   "'equal timing': an absent begin equals 0, an absent end is indefinite, an end of 0 is not indefinite",
@@ -69,9 +73,6 @@ FUNCTIONS = [
 # proof tier: concrete documents, symbolic safe area
 
 
-from specs.lcd_shapes import SHAPES       # noqa: E402
-
-
 def harness_for(shape):
   def run(ctx):
     sa = sym_int("sa")
@@ -79,11 +80,15 @@ def harness_for(shape):
     assume(sa <= 30)
     doc = SHAPES[shape]()
     n_before = len(list(doc.iter_regions()))
-    cfg = LCD.LCDDocFilterConfig(safe_area=sa)
+    cfg = LCD.LCDDocFilterConfig(safe_area=sa, **CONFIG.get(shape, {}))
     st, _ = core.call_real(LCD.LCDDocFilter(cfg).process, doc, allowed=())
     prove(st == "ok", "filter-succeeds")
     regs = list(doc.iter_regions())
     prove(0 < len(regs) <= n_before, "regions-remain")
+    if shape == "two-regions":
+      prove([r.get_id() for r in regs] == ["r1", "r2"], "top-and-bottom-regions-are-not-merged")
+      prove((regs[0].get_style(SP.DisplayAlign) is sp.DisplayAlignType.before) & (regs[1].get_style(SP.DisplayAlign) is sp.DisplayAlignType.after),
+            "top-region-before,bottom-region-after")
     for reg in regs:
       o, x = reg.get_style(SP.Origin), reg.get_style(SP.Extent)
       prove((o is not None) & (x is not None), f"{reg.get_id()}/origin-and-extent-present")
@@ -130,7 +135,8 @@ def align_harness(da):
     else:
       lo, hi = y + h / 2, y + h
     if res is sp.DisplayAlignType.before:
-      prove(lo <= 50, "before-only-when-anchored-in-the-upper-half")
+      # a region that starts exactly at the middle of the frame lies wholly in the lower half (strict for top-anchored regions)
+      prove((lo < 50) if da in (None, sp.DisplayAlignType.before) else (lo <= 50), "before-only-when-anchored-in-the-upper-half")
     else:
       prove(hi >= 50, "after-only-when-anchored-in-the-lower-half")
     o, x = r1.get_style(SP.Origin), r1.get_style(SP.Extent)
